@@ -3,7 +3,7 @@
 # (must pass) and with patch.diff applied (must fail); log to /tmp/seed/confirm-<PID>.log
 pid=$1; wt=/tmp/seed/$pid; log=/tmp/seed/confirm-$pid.log; : > $log
 export CARGO_TARGET_DIR=/tmp/seed/$pid-target CARGO_NET_OFFLINE=true
-for n in 1 2 3; do
+for n in ${2:-1 2 3}; do
   d=/tmp/seed/out/$pid-$n; [ -d $d ] || continue
   git -C $wt checkout -q -- . ; git -C $wt clean -fdq
   bash $d/demo.sh $wt > $d/clean.out 2>&1; c=$?
